@@ -6,6 +6,8 @@ package main
 
 import (
 	"fmt"
+	"regexp"
+	"sort"
 	"strings"
 	"unicode/utf8"
 
@@ -39,11 +41,18 @@ const (
 	kParam    = 23 // parameter of an endpoint / event / REST method (a field rule)
 	kHolder   = 24 // the "..." body of an application: an endpoint named "..." that records nothing
 	kQuery    = 25 // query parameter of a REST method ("?q=int"): EnterQuery_var, own context only
+	// round 3, second pass
+	kPathVar   = 26 // typed path parameter "{id <: int}" of a REST path: one context, shared by every method below the path
+	kCollector = 27 // ".. * <- *:" : own context (appended per declaration), statement scope, End not overwritten
+	kCollStmt  = 28 // statement of a collector (action / call / HTTP): own context, attributes when it is left
+	kSubscribe = 29 // "Pub -> Event [..]:" : own context, attributes, statement scope
+	kSubCall   = 30 // the call statement a subscription appends to the publisher's event: the subscription's context again
 )
 
 var kindClass = map[int]string{kApp: "app", kType: "type", kField: "field", kEndpoint: "endpoint", kEvent: "event", kMethod: "rest-endpoint",
 	kText: "statement", kPlain: "statement", kBlock: "statement", kOneOf: "statement", kAnno: "annotation", kNvp: "annotation", kMod: "annotation", kItem: "annotation",
-	kImport: "import", kEnum: "type", kAlias: "type", kUnion: "type", kMember: "union-member", kDoc: "statement", kParam: "parameter", kHolder: "endpoint", kQuery: "parameter"}
+	kImport: "import", kEnum: "type", kAlias: "type", kUnion: "type", kMember: "union-member", kDoc: "statement", kParam: "parameter", kHolder: "endpoint", kQuery: "parameter",
+	kPathVar: "path-parameter", kCollector: "endpoint", kCollStmt: "statement", kSubscribe: "endpoint", kSubCall: "statement"}
 
 type item struct {
 	Syn  bool // synthetic DEDENT
@@ -56,6 +65,7 @@ type node struct {
 	First, Last int // ordinals of first and last item of the rule
 	TLen        int // kText: byte length of the statement text
 	Attrs, Kids []*node
+	SameAs      *node // kSubCall: first and last token are those of this node (the subscription)
 }
 
 // Decl is one recorded declaration: where the renderer wrote the first character of an element
@@ -65,12 +75,16 @@ type Decl struct {
 	Paths []string `json:"paths"` // where the element is found in the compiled module
 	File  string   `json:"file"`
 	Line  int      `json:"line"`
-	Col   int      `json:"col"`  // in characters
-	BCol  int      `json:"bcol"` // in bytes (diagnostics only)
-	Show  string   `json:"show"` // first characters of the declaration (diagnostics)
+	Col   int      `json:"col"`            // in characters
+	BCol  int      `json:"bcol"`           // in bytes (diagnostics only)
+	Show  string   `json:"show"`           // first characters of the declaration (diagnostics)
 	Form  string   `json:"form,omitempty"` // value form of an attribute / annotation
 	// written inside an !enum / !alias / !union that a later declaration of the same name replaced: not in the module
 	Replaced bool `json:"replaced,omitempty"`
+	// when the declaration was written (Ord) and when it was applied to each of its paths (Stamps, parallel to Paths, for
+	// attributes of a REST path: every method declared below the path inherits them again) - one counter
+	Ord    int   `json:"ord,omitempty"`
+	Stamps []int `json:"stamps,omitempty"`
 }
 
 type fileOut struct {
@@ -102,18 +116,22 @@ type renderer struct {
 	// across files
 	decls    []*Decl
 	keys     map[string]int
-	stmtN    map[string]int // endpoint path -> number of statements so far
-	modN     map[string]int // owner path -> number of context-bearing pattern elements so far
+	stmtN    map[string]int  // endpoint path -> number of statements so far
+	modN     map[string]int  // owner path -> number of context-bearing pattern elements so far
 	annoSeen map[string]bool // owner|name -> a non-empty value has been declared (later values are dropped)
 	paramN   map[string]int  // endpoint path -> number of parameters so far
 	lastDoc  map[string]bool // statement scope -> its last statement so far is a doc string
 	impN     int             // import statements so far (all files)
+	stamp    int
 	likeKids map[string][]*Decl // enum / alias / union path -> what its latest declaration holds
+	arrows   map[string]string  // subscription (app|publisher|event) -> spelling of its arrow token (part of the endpoint name)
+	implicit map[string]bool    // module paths of elements a subscription creates without any location (publisher app / event)
 }
 
 func newRenderer(lay *common.Rng, o layoutOpts) *renderer {
 	return &renderer{lay: lay, opts: o, keys: map[string]int{}, stmtN: map[string]int{}, modN: map[string]int{}, annoSeen: map[string]bool{},
-		paramN: map[string]int{}, lastDoc: map[string]bool{}, likeKids: map[string][]*Decl{}}
+		paramN: map[string]int{}, lastDoc: map[string]bool{}, likeKids: map[string][]*Decl{},
+		arrows: map[string]string{}, implicit: map[string]bool{}}
 }
 
 func (r *renderer) key(s string) int {
@@ -321,7 +339,8 @@ func (r *renderer) finishFile(forest []*node) fileOut {
 // ---- recording ----
 
 func (r *renderer) decl(kind int, keyStr string, paths []string, show string) *Decl {
-	d := &Decl{Kind: kind, Key: r.key(keyStr), Paths: paths, File: r.fname, Line: len(r.lines), Col: r.col, BCol: r.curText.Len(), Show: show}
+	r.stamp++
+	d := &Decl{Kind: kind, Key: r.key(keyStr), Paths: paths, File: r.fname, Line: len(r.lines), Col: r.col, BCol: r.curText.Len(), Show: show, Ord: r.stamp}
 	r.decls = append(r.decls, d)
 	return d
 }
@@ -334,6 +353,7 @@ func quote(s string) string { return `"` + s + `"` }
 type inh struct {
 	nvps []*inhNvp
 	mods []*Decl
+	vars []*Decl // typed path parameters
 }
 type inhNvp struct {
 	name  string
@@ -954,11 +974,192 @@ func (r *renderer) epD(app string, e EpD, width int) *node {
 	return n
 }
 
+var pathVarRe = regexp.MustCompile(`^(.*/)\{(\w+) <: (\w+)\}$`)
+
+// appName writes "Ns :: App" and returns the ordinal of its first token
+func (r *renderer) appName(name string) int {
+	first := 0
+	for i, p := range strings.Split(name, " :: ") {
+		if i > 0 {
+			r.ogap(" ")
+			r.tok("::")
+			r.ogap(" ")
+		}
+		o := r.tok(p)
+		if i == 0 {
+			first = o
+		}
+	}
+	return first
+}
+
+// collector writes ".. * <- *:" with its statements. Every declaration appends a location to the endpoint ".. * <- *";
+// the statements of an earlier declaration are REPLACED (EnterCollector: ep.Stmt = []), so they - and their attributes -
+// are no elements of the module any more.
+func (r *renderer) collector(app string, x Collector, width int) *node {
+	const name = ".. * <- *"
+	ep := "E|" + app + "|" + name
+	scope := "S|" + app + "|" + name
+	if old, again := r.likeKids[ep]; again && len(x.Stmts) > 0 {
+		for _, d := range old {
+			d.Replaced = true
+		}
+		for k := range r.modN {
+			if strings.HasPrefix(k, scope+".") {
+				delete(r.modN, k)
+			}
+		}
+	}
+	r.begin(width)
+	d := r.decl(kCollector, ep, []string{ep}, name)
+	at := len(r.decls)
+	if len(x.Stmts) > 0 {
+		defer func() { r.likeKids[ep] = append([]*Decl{}, r.decls[at:]...) }()
+	}
+	n := &node{Kind: kCollector, Key: d.Key}
+	n.First = r.tok(name)
+	r.ogap("")
+	r.tok(":")
+	if len(x.Stmts) == 0 {
+		r.gap()
+		n.Last = r.tok("...")
+		r.end(false)
+		return n
+	}
+	r.end(true)
+	cw := r.childWidth(width)
+	for i, cs := range x.Stmts {
+		path := fmt.Sprintf("%s.%d", scope, i)
+		r.begin(cw)
+		sn := &node{Kind: kCollStmt}
+		switch cs.Kind {
+		case cAction:
+			sd := r.decl(kCollStmt, fmt.Sprintf("cstmt|%s|%d|%d", r.fname, len(r.lines), r.col), []string{path}, cs.Text)
+			sn.Key = sd.Key
+			sn.First = r.tok(cs.Text)
+			sn.Last = sn.First
+		case cCall:
+			sd := r.decl(kCollStmt, fmt.Sprintf("cstmt|%s|%d|%d", r.fname, len(r.lines), r.col), []string{path}, cs.App+" <- "+cs.Text)
+			sn.Key = sd.Key
+			sn.First = r.appName(cs.App)
+			r.ogap(" ")
+			r.tok("<-")
+			r.ogap(" ")
+			sn.Last = r.tok(cs.Text)
+		default:
+			sd := r.decl(kCollStmt, fmt.Sprintf("cstmt|%s|%d|%d", r.fname, len(r.lines), r.col), []string{path}, cs.App+" "+cs.Text)
+			sn.Key = sd.Key
+			if r.opts.plain || r.lay.Chance(2, 3) {
+				sn.First = r.tok(cs.App + " ") // the verb token takes the blanks behind it
+			} else {
+				sn.First = r.tok(cs.App + "  ")
+			}
+			// "/a/{b}/c": one token per "/", name and brace
+			for _, part := range strings.Split(strings.TrimPrefix(cs.Text, "/"), "/") {
+				r.tok("/")
+				if strings.HasPrefix(part, "{") {
+					r.tok("{")
+					r.tok(strings.Trim(part, "{}"))
+					sn.Last = r.tok("}")
+				} else {
+					sn.Last = r.tok(part)
+				}
+			}
+		}
+		r.gap()
+		sn.Attrs = r.attribs(cs.Attrs, []string{path}, nil)
+		r.end(false)
+		n.Kids = append(n.Kids, sn)
+	}
+	r.closeBody(n)
+	return n
+}
+
+// subscribe writes "Pub -> Event [attributes]:" with its statements. The endpoint is named publisher + arrow token +
+// event (the arrow token takes the blanks around it); the rule's context is also the location of the call statement the
+// subscription appends to the publisher's event.
+func (r *renderer) subscribe(app string, x Subscribe, width int) *node {
+	ak := app + "|" + x.Pub + "|" + x.Event
+	arrow, ok := r.arrows[ak]
+	if !ok {
+		arrow = " -> "
+		if !r.opts.plain {
+			arrow = []string{" -> ", " -> ", "  ->  ", " \t-> ", " ->\t"}[r.lay.Intn(5)]
+		}
+		r.arrows[ak] = arrow
+	}
+	name := x.Pub + arrow + x.Event
+	ep := "E|" + app + "|" + name
+	if old, again := r.likeKids[ep]; again {
+		// a second declaration REPLACES the endpoint (EnterSubscribe builds a fresh one)
+		for _, d := range old {
+			d.Replaced = true
+		}
+		r.modN[ep] = 0
+		r.stmtN[ep] = 0
+	}
+	r.begin(width)
+	at := len(r.decls) + 2 // behind the subscription and the call statement (which stays in the publisher's event)
+	defer func() { r.likeKids[ep] = append([]*Decl{}, r.decls[at:]...) }()
+	d := r.decl(kSubscribe, ep, []string{ep}, x.Pub+" -> "+x.Event)
+	// the call statement in the publisher's event: the next statement of that endpoint
+	pubEp := "E|" + x.Pub + "|" + x.Event
+	pubScope := "S|" + x.Pub + "|" + x.Event
+	cp := fmt.Sprintf("%s.%d", pubScope, r.stmtN[pubEp])
+	r.stmtN[pubEp]++
+	r.lastDoc[pubScope] = false
+	cd := r.decl(kSubCall, fmt.Sprintf("subcall|%s|%d|%d", r.fname, len(r.lines), r.col), []string{cp}, "call from "+x.Pub+" -> "+x.Event)
+	r.implicit["A|"+x.Pub] = true
+	r.implicit[pubEp] = true
+	n := &node{Kind: kSubscribe, Key: d.Key}
+	n.First = r.appName(x.Pub)
+	r.tok(arrow)
+	r.tok(x.Event)
+	if len(x.Attrs) > 0 {
+		r.ogap(" ")
+		n.Attrs = r.attribs(x.Attrs, []string{ep}, nil)
+	}
+	// the context computed once more behind the attributes: first node of the body (it stands at the rule's first token)
+	n.Kids = append(n.Kids, &node{Kind: kSubCall, Key: cd.Key, SameAs: n})
+	r.ogap("")
+	r.tok(":")
+	if len(x.Stmts) == 0 {
+		r.gap()
+		n.Last = r.tok("...")
+		r.end(false)
+		return n
+	}
+	r.end(true)
+	c := 0
+	n.Kids = append(n.Kids, r.stmts(x.Stmts, r.childWidth(width), "S|"+app+"|"+name, &c)...)
+	r.closeBody(n)
+	return n
+}
+
 func (r *renderer) rest(app string, x Rest, width int, prefix string, up []*inh) *node {
 	r.begin(width)
 	n := &node{Kind: kRestPath}
-	n.First = r.tok(x.Path)
 	mine := &inh{}
+	if m := pathVarRe.FindStringSubmatch(x.Path); m != nil {
+		// "/seg/{id <: int}": the typed parameter is a rule of its own (http_path_var_with_type, "{" .. "}") whose context
+		// every method below the path shares; the listener meets it after the path's attributes
+		n.First = r.tok(m[1])
+		d := r.decl(kPathVar, fmt.Sprintf("pvar|%s|%d|%d", r.fname, len(r.lines), r.col), nil, "{"+m[2]+" <: "+m[3]+"}")
+		vn := &node{Kind: kPathVar, Key: d.Key}
+		vn.First = r.tok("{")
+		r.tok(m[2])
+		if r.opts.plain {
+			r.tok(" <: ")
+		} else {
+			r.tok([]string{" <: ", "<:", "  <:", "<: \t"}[r.lay.Intn(4)]) // the token takes the blanks around it
+		}
+		r.tok(m[3])
+		vn.Last = r.tok("}")
+		mine.vars = append(mine.vars, d)
+		n.Kids = append(n.Kids, vn)
+	} else {
+		n.First = r.tok(x.Path)
+	}
 	if len(x.Attrs) > 0 {
 		r.ogap(" ")
 		n.Attrs = r.attribs(x.Attrs, nil, mine)
@@ -978,6 +1179,14 @@ func (r *renderer) rest(app string, x Rest, width int, prefix string, up []*inh)
 		r.begin(cw)
 		d := r.decl(kMethod, ep, []string{ep}, m.Verb)
 		mn := &node{Kind: kMethod, Key: d.Key}
+		// the typed parameters of the path chain, outer to inner, are the method's URL parameters
+		vi := 0
+		for _, h := range chain {
+			for _, vd := range h.vars {
+				vd.Paths = append(vd.Paths, fmt.Sprintf("V|%s|%d", ep, vi))
+				vi++
+			}
+		}
 		// inherited attributes become attributes of this endpoint: modifiers first outer to inner, then the method's own
 		for _, h := range chain {
 			for _, md := range h.mods {
@@ -985,6 +1194,11 @@ func (r *renderer) rest(app string, x Rest, width int, prefix string, up []*inh)
 				r.modN[ep]++
 			}
 			for _, nv := range h.nvps {
+				r.stamp++
+				for len(nv.d.Stamps) < len(nv.d.Paths) {
+					nv.d.Stamps = append(nv.d.Stamps, nv.d.Ord)
+				}
+				nv.d.Stamps = append(nv.d.Stamps, r.stamp)
 				nv.d.Paths = append(nv.d.Paths, "@|"+ep+"|"+nv.name)
 				for i, it := range nv.items {
 					it.Paths = append(it.Paths, fmt.Sprintf("#|%s|%s|%d", ep, nv.name, i))
@@ -1077,6 +1291,10 @@ func (r *renderer) block(b Block) *node {
 			n.Kids = append(n.Kids, r.epD(b.App, x, cw))
 		case Rest:
 			n.Kids = append(n.Kids, r.rest(b.App, x, cw, "", nil))
+		case Collector:
+			n.Kids = append(n.Kids, r.collector(b.App, x, cw))
+		case Subscribe:
+			n.Kids = append(n.Kids, r.subscribe(b.App, x, cw))
 		case Mixin:
 			r.begin(cw)
 			r.tok("-|>")
@@ -1123,10 +1341,11 @@ func processingOrder(s Spec) []int {
 }
 
 type Rendered struct {
-	Graph [][]int   // imports of every file of the specification, in textual order
-	Files []fileOut // in processing order
-	Decls []*Decl   // in declaration (processing) order
-	NKeys int
+	Implicit []string  // elements a subscription creates without a location
+	Graph    [][]int   // imports of every file of the specification, in textual order
+	Files    []fileOut // in processing order
+	Decls    []*Decl   // in declaration (processing) order
+	NKeys    int
 }
 
 func render(s Spec, lay *common.Rng, o layoutOpts) Rendered {
@@ -1169,6 +1388,10 @@ func render(s Spec, lay *common.Rng, o layoutOpts) Rendered {
 		out.Graph = append(out.Graph, append([]int{}, f.ImpIdx...))
 	}
 	out.Decls = r.decls
+	for p := range r.implicit {
+		out.Implicit = append(out.Implicit, p)
+	}
+	sort.Strings(out.Implicit)
 	out.NKeys = len(r.keys)
 	return out
 }
